@@ -412,3 +412,64 @@ func TestVerifReplayIndexPrefix(t *testing.T) {
 	}
 	fmt.Printf("REPLAY PASS scenario: indexes on x and xy over 10 documents, DropIndex(x) (result %v): xy >= 0 returns %d documents before and after\n", err, len(after))
 }
+
+// A descending index scan returns every in-range entry (C17, C02, C08): an inclusive upper bound, an equality
+// and the nil-only range must not lose the entries equal to the bound.
+func TestVerifReplayReverseScan(t *testing.T) {
+	ok := verifReplayPlannerSorted(t, "x <= 5 sorted by x descending", func(c string) *query.Query {
+		return query.NewQuery(c).Where(query.Field("x").LtEq(5)).Sort(query.SortOption{Field: "x", Direction: -1})
+	}, "x")
+	ok = verifReplayPlannerSorted(t, "x = 5 sorted by x descending", func(c string) *query.Query {
+		return query.NewQuery(c).Where(query.Field("x").Eq(5)).Sort(query.SortOption{Field: "x", Direction: -1})
+	}, "x") && ok
+	ok = verifReplayPlannerSorted(t, "x >= 2 And x <= 6 sorted by x descending", func(c string) *query.Query {
+		return query.NewQuery(c).Where(query.Field("x").GtEq(2).And(query.Field("x").LtEq(6))).Sort(query.SortOption{Field: "x", Direction: -1})
+	}, "x") && ok
+	ok = verifReplayPlannerSorted(t, "x < 5 sorted by x descending", func(c string) *query.Query {
+		return query.NewQuery(c).Where(query.Field("x").Lt(5)).Sort(query.SortOption{Field: "x", Direction: -1})
+	}, "x") && ok
+	if !ok {
+		t.Fatal("a descending index scan loses the entries equal to its upper bound")
+	}
+}
+
+// like verifReplayPlanner, but the query brings its own sort (results compared in order)
+func verifReplayPlannerSorted(t *testing.T, what string, mk func(coll string) *query.Query, indexed ...string) bool {
+	db, err := Open(t.TempDir())
+	if err != nil {
+		t.Fatal(err)
+	}
+	defer db.Close()
+	for _, coll := range []string{"plain", "indexed"} {
+		db.CreateCollection(coll)
+		for i := 0; i < 10; i++ {
+			doc := d.NewDocument()
+			doc.Set("n", i)
+			doc.Set("x", i)
+			if _, err := db.InsertOne(coll, doc); err != nil {
+				t.Fatal(err)
+			}
+		}
+	}
+	for _, f := range indexed {
+		db.CreateIndex("indexed", f)
+	}
+	run := func(coll string) string {
+		docs, err := db.FindAll(mk(coll))
+		if err != nil {
+			return "error: " + err.Error()
+		}
+		s := ""
+		for _, doc := range docs {
+			s += fmt.Sprintf("%v ", doc.Get("n"))
+		}
+		return "n = " + s
+	}
+	plain, idx := run("plain"), run("indexed")
+	if plain != idx {
+		fmt.Printf("REPLAY FAIL scenario: %s: without an index %s; with an index on %v %s\n", what, plain, indexed, idx)
+		return false
+	}
+	fmt.Printf("REPLAY PASS scenario: %s: %s with and without an index on %v\n", what, plain, indexed)
+	return true
+}
